@@ -1,179 +1,13 @@
-//! C02 — request parsing is faithful, segmentation-independent and round-trips.
-//! Generator-as-oracle: a structured request is rendered to bytes; the structure *is* the expected
-//! parse. Every request is parsed under every read plan of the bounded family (DESIGN.md §3 C02).
+//! C02 — request parsing is faithful, segmentation-independent and round-trips (threaded parser
+//! runner; generator and oracle in c02_gen.rs, tokio runner in /verif/checks-tokio).
 
+pub use crate::props::c02_gen::*;
 use crate::plans::{plans, CutReader, Depth};
 use crate::report::{show, Ctx, Stats};
-use humphrey::http::method::Method;
 use humphrey::http::Request;
 use rayon::prelude::*;
 use serde_json::json;
-use std::net::{IpAddr, SocketAddr};
-
-#[derive(Clone, Debug)]
-pub struct Req {
-    pub method: &'static str,
-    pub path: String,
-    /// None = no `?` in the target
-    pub query: Option<String>,
-    pub version: &'static str,
-    /// (name as written, optional whitespace after the colon, value)
-    pub headers: Vec<(String, String, String)>,
-    pub body: Option<Vec<u8>>,
-}
-
-impl Req {
-    pub fn new(method: &'static str, path: &str) -> Req {
-        Req { method, path: path.into(), query: None, version: "HTTP/1.1", headers: vec![], body: None }
-    }
-    pub fn bytes(&self) -> Vec<u8> {
-        let mut s = format!("{} {}", self.method, self.path);
-        if let Some(q) = &self.query {
-            s.push('?');
-            s.push_str(q);
-        }
-        s.push(' ');
-        s.push_str(self.version);
-        s.push_str("\r\n");
-        for (n, ows, v) in &self.headers {
-            s.push_str(n);
-            s.push(':');
-            s.push_str(ows);
-            s.push_str(v);
-            s.push_str("\r\n");
-        }
-        let mut b = s.into_bytes();
-        if let Some(body) = &self.body {
-            b.extend(format!("Content-Length: {}\r\n", body.len()).bytes());
-        }
-        b.extend(b"\r\n");
-        if let Some(body) = &self.body {
-            b.extend(body);
-        }
-        b
-    }
-    /// positions just after each structural element (for focused cut plans)
-    pub fn boundaries(&self) -> Vec<usize> {
-        let b = self.bytes();
-        let mut v = vec![1, 2];
-        for (i, w) in b.windows(2).enumerate() {
-            if w == b"\r\n" {
-                v.extend([i, i + 1, i + 2, i + 3]);
-            }
-        }
-        let head = b.len() - self.body.as_ref().map_or(0, |x| x.len());
-        for k in 1..=(b.len() / 8192) {
-            v.extend([8192 * k - 1, 8192 * k, 8192 * k + 1, head + 8192 * k - 1, head + 8192 * k, head + 8192 * k + 1]);
-        }
-        v.extend([b.len() - 1, b.len().saturating_sub(2)]);
-        v
-    }
-}
-
-pub const PEER: &str = "203.0.113.7:4242";
-
-/// What the property says the parse of `r` must be; compared through the public API only.
-pub fn mismatch(r: &Req, got: &Request, peer: SocketAddr) -> Option<String> {
-    let m = match r.method {
-        "GET" => Method::Get,
-        "POST" => Method::Post,
-        "PUT" => Method::Put,
-        "DELETE" => Method::Delete,
-        _ => Method::Options,
-    };
-    if got.method != m {
-        return Some(format!("method {:?}", got.method));
-    }
-    if got.uri != r.path {
-        return Some(format!("path {:?} expected {:?}", got.uri, r.path));
-    }
-    if got.query != r.query.clone().unwrap_or_default() {
-        return Some(format!("query {:?} expected {:?}", got.query, r.query));
-    }
-    if got.version != r.version {
-        return Some(format!("version {:?}", got.version));
-    }
-    // header fields: names case-insensitively, values exact, relative order of same-named fields
-    let mut exp: Vec<(String, String)> = r.headers.iter().map(|(n, _, v)| (n.to_ascii_lowercase(), v.clone())).collect();
-    if let Some(b) = &r.body {
-        exp.push(("content-length".into(), b.len().to_string()));
-    }
-    if got.headers.len() != exp.len() {
-        return Some(format!("{} header fields, expected {}", got.headers.len(), exp.len()));
-    }
-    let mut names: Vec<&String> = exp.iter().map(|e| &e.0).collect();
-    names.sort();
-    names.dedup();
-    for n in names {
-        let want: Vec<&str> = exp.iter().filter(|e| &e.0 == n).map(|e| e.1.as_str()).collect();
-        // look the field up under three spellings: names match case-insensitively
-        for spelling in [n.clone(), n.to_ascii_uppercase(), capitalise(n)] {
-            let all = got.headers.get_all(spelling.as_str());
-            if all != want {
-                return Some(format!("header {:?}: values {:?}, expected {:?}", spelling, all, want));
-            }
-            if got.headers.get(spelling.as_str()) != want.first().copied() {
-                return Some(format!("header {:?}: get() returned {:?}, expected {:?}", spelling, got.headers.get(spelling.as_str()), want.first()));
-            }
-        }
-    }
-    // cookies
-    let cookie_field = exp.iter().find(|e| e.0 == "cookie").map(|e| e.1.clone());
-    let want_cookies: Vec<(String, String)> = cookie_field
-        .map(|v| v.split(';').filter_map(|p| p.split_once('=')).map(|(k, v)| (k.trim().to_string(), v.trim().to_string())).collect())
-        .unwrap_or_default();
-    let got_cookies: Vec<(String, String)> = got.get_cookies().into_iter().map(|c| (c.name, c.value)).collect();
-    if got_cookies != want_cookies {
-        return Some(format!("cookies {:?}, expected {:?}", got_cookies, want_cookies));
-    }
-    for (k, v) in &want_cookies {
-        let first = want_cookies.iter().find(|c| &c.0 == k).map(|c| c.1.clone());
-        if got.get_cookie(k).map(|c| c.value) != first {
-            return Some(format!("get_cookie({:?}) != {:?}", k, v));
-        }
-    }
-    // addresses: origin = last listed X-Forwarded-For address, earlier ones + the peer = proxies
-    let xff = exp.iter().find(|e| e.0 == "x-forwarded-for").map(|e| e.1.clone());
-    let listed: Vec<IpAddr> = xff.map(|v| v.split(',').filter_map(|a| a.trim().parse().ok()).collect()).unwrap_or_default();
-    let (want_origin, want_proxies) = if listed.is_empty() {
-        (peer.ip(), vec![])
-    } else {
-        let mut p: Vec<IpAddr> = listed[..listed.len() - 1].to_vec();
-        p.push(peer.ip());
-        (*listed.last().unwrap(), p)
-    };
-    if got.address.origin_addr != want_origin || got.address.proxies != want_proxies || got.address.port != peer.port() {
-        return Some(format!("address {:?}, expected origin {} proxies {:?} port {}", got.address, want_origin, want_proxies, peer.port()));
-    }
-    if got.content != r.body {
-        return Some(format!("body of {:?} bytes, expected {:?}", got.content.as_ref().map(|b| b.len()), r.body.as_ref().map(|b| b.len())));
-    }
-    None
-}
-
-fn capitalise(n: &str) -> String {
-    let mut out = String::new();
-    let mut up = true;
-    for c in n.chars() {
-        out.push(if up { c.to_ascii_uppercase() } else { c });
-        up = c == '-';
-    }
-    out
-}
-
-/// equality the round trip must preserve: everything, with header order only within a name
-pub fn same_request(a: &Request, b: &Request) -> bool {
-    if a.method != b.method || a.uri != b.uri || a.query != b.query || a.version != b.version || a.content != b.content || a.address != b.address {
-        return false;
-    }
-    if a.headers.len() != b.headers.len() {
-        return false;
-    }
-    let mut names: Vec<String> = a.headers.iter().map(|h| h.name.to_string().to_ascii_lowercase()).collect();
-    names.sort();
-    names.dedup();
-    names.iter().all(|n| a.headers.get_all(n.as_str()) == b.headers.get_all(n.as_str()))
-}
+use std::net::SocketAddr;
 
 pub fn check_request(s: &mut Stats, fam: &str, r: &Req, depth: Depth, all_cuts_below: usize) {
     let bytes = r.bytes();
@@ -250,180 +84,17 @@ fn run_family(st: &mut Stats, fam: &str, reqs: Vec<Req>, depth: Depth, all_cuts_
     st.merge(part);
 }
 
-pub const METHODS: [&str; 5] = ["GET", "POST", "PUT", "DELETE", "OPTIONS"];
-
-pub fn body_pattern(n: usize) -> Vec<u8> {
-    let special = [b'\r', b'\n', 0u8, 0xff, b' ', b':', b'G', 0x80];
-    (0..n).map(|i| if i % 7 == 3 { special[(i / 7) % special.len()] } else { (i * 37 + 11) as u8 }).collect()
-}
-
 pub fn run(mut cx: Ctx) -> ! {
-    cx.rule = "structured requests of the bounded grammar are rendered to bytes and parsed by the real Request::from_stream under every read plan (whole, bytewise, every single cut, pairs of cuts in thorough; for long requests cuts at every structural boundary and around 8192*k); the generating structure is the expected parse (method, path, query, version, per-name header value sequences under three name spellings, cookies, origin/proxies/port, body); each parsed request is serialised and parsed again; states = distinct requests, transitions = parser/serialiser calls; non-trivial = requests with header fields or a body".into();
-    let quick = cx.quick();
-    let depth = if quick { Depth::Single } else { Depth::Pairs };
+    cx.rule = "structured requests of the bounded grammar are rendered to bytes and parsed by the real Request::from_stream under every read plan (whole, bytewise, every single cut, pairs of cuts in thorough; for long requests cuts at every structural boundary and around 8192*k); the generating structure is the expected parse (method, path, query, version, per-name header value sequences under three name spellings, cookies, origin/proxies/port, body); each parsed request is serialised and parsed again; the tokio parser runs the same families on a current-thread runtime with Pending polls injected; states = distinct requests, transitions = parser/serialiser calls; non-trivial = requests with header fields or a body".into();
+    let fams = families(cx.quick());
     let mut st = Stats::default();
-
-    // A. start line product
-    let paths = ["/", "/a", "/a/b.c", "/é", "/%20x", "/a//b"];
-    let queries: [Option<&str>; 5] = [None, Some(""), Some("x=1&y"), Some("a?b"), Some("é=ü")];
-    let mut reqs = vec![];
-    for m in METHODS {
-        for p in paths {
-            for q in queries {
-                for v in ["HTTP/1.1", "HTTP/1.0"] {
-                    let mut r = Req::new(m, p);
-                    r.query = q.map(|s| s.to_string());
-                    r.version = v;
-                    reqs.push(r);
-                }
-            }
-        }
+    for (name, reqs, depth, below) in fams.list {
+        run_family(&mut st, name, reqs, depth, below);
     }
-    run_family(&mut st, "start-line", reqs, depth, 200);
-
-    // B. header sequences
-    let names = ["Host", "X-A", "x-a", "X-a", "Accept", "Referer"];
-    let values = ["", "v", "two words", "é", "漢字", "𝄞", "a:b: c", "x,y;z=\"q\""];
-    let owses = ["", " ", "   ", "\t"];
-    let mut pairs: Vec<(String, String, String)> = vec![];
-    for n in names {
-        for (vi, v) in values.iter().enumerate() {
-            pairs.push((n.to_string(), owses[vi % owses.len()].to_string(), v.to_string()));
-        }
-    }
-    let mut reqs = vec![];
-    for a in &pairs {
-        let mut r = Req::new("GET", "/h");
-        r.headers = vec![a.clone()];
-        reqs.push(r);
-        for b in &pairs {
-            let mut r = Req::new("POST", "/h");
-            r.headers = vec![a.clone(), b.clone()];
-            reqs.push(r);
-        }
-    }
-    let small: Vec<&(String, String, String)> = pairs.iter().filter(|p| ["X-A", "x-a", "Host"].contains(&p.0.as_str()) && ["v", "", "é", "two words"].contains(&p.2.as_str())).collect();
-    let l3 = if quick { 3 } else { 4 };
-    let mut idx = vec![0usize; l3];
-    'outer: loop {
-        let mut r = Req::new("PUT", "/h3");
-        r.query = Some("q".into());
-        r.headers = idx.iter().map(|&i| small[i].clone()).collect();
-        reqs.push(r);
-        for p in (0..l3).rev() {
-            idx[p] += 1;
-            if idx[p] < small.len() {
-                continue 'outer;
-            }
-            idx[p] = 0;
-        }
-        break;
-    }
-    run_family(&mut st, "header-sequences", reqs, if quick { Depth::Single } else { Depth::Single }, 160);
-
-    // C. large header sets: two names, the second on every contiguous run and every residue class
-    let mut reqs = vec![];
-    let counts: Vec<usize> = if quick { vec![20, 21, 32, 33, 34, 40] } else { vec![20, 21, 32, 33, 34, 40, 64] };
-    for &n in &counts {
-        let mut masks: Vec<Vec<bool>> = vec![];
-        for i in 0..n {
-            for j in (i + 1)..=n {
-                if quick && (j - i) % 3 == 2 && n > 34 {
-                    continue;
-                }
-                masks.push((0..n).map(|k| k >= i && k < j).collect());
-            }
-        }
-        for m in 2..=4usize {
-            for rr in 0..m {
-                masks.push((0..n).map(|k| k % m == rr).collect());
-            }
-        }
-        for mask in masks {
-            let mut r = Req::new("GET", "/many");
-            r.headers = mask.iter().enumerate().map(|(k, &b)| (if b { "X-B".to_string() } else { "X-A".to_string() }, " ".to_string(), format!("v{}", k))).collect();
-            reqs.push(r);
-        }
-    }
-    run_family(&mut st, "many-headers", reqs, Depth::Single, 0);
-
-    // D. cookies
-    let cookie_pairs = ["a=1", "b=", "c=x=y", " d = 4 ", "é=ü", "a=2", "novalue"];
-    let mut reqs = vec![];
-    let mut lists: Vec<Vec<&str>> = vec![vec![]];
-    for a in cookie_pairs {
-        lists.push(vec![a]);
-        for b in cookie_pairs {
-            lists.push(vec![a, b]);
-            if !quick || (a != b) {
-                for c in ["a=1", "é=ü", "z=9"] {
-                    lists.push(vec![a, b, c]);
-                }
-            }
-        }
-    }
-    for l in lists {
-        for sep in ["; ", ";", " ; "] {
-            let mut r = Req::new("GET", "/c");
-            if !l.is_empty() {
-                r.headers = vec![("Cookie".into(), " ".into(), l.join(sep).trim().to_string())];
-            }
-            r.headers.push(("Host".into(), " ".into(), "x".into()));
-            reqs.push(r);
-        }
-    }
-    run_family(&mut st, "cookies", reqs, Depth::Single, 0);
-
-    // E. X-Forwarded-For lists with and without a space after the commas
-    let addrs = ["8.8.8.8", "10.0.0.1", "2001:db8::1", "::1", "192.0.2.200"];
-    let mut reqs = vec![];
-    for sep in [",", ", "] {
-        for a in addrs {
-            let mut l1 = Req::new("GET", "/x");
-            l1.headers = vec![("X-Forwarded-For".into(), " ".into(), a.to_string())];
-            reqs.push(l1);
-            for b in addrs {
-                let mut l2 = Req::new("GET", "/x");
-                l2.headers = vec![("x-forwarded-for".into(), " ".into(), [a, b].join(sep))];
-                reqs.push(l2);
-                for c in addrs {
-                    let mut l3 = Req::new("POST", "/x");
-                    l3.headers = vec![("Host".into(), " ".into(), "h".into()), ("X-Forwarded-For".into(), "".into(), [a, b, c].join(sep))];
-                    l3.body = Some(b"b".to_vec());
-                    reqs.push(l3);
-                }
-            }
-        }
-    }
-    run_family(&mut st, "x-forwarded-for", reqs, Depth::Single, 0);
-
-    // F. bodies around the BufReader capacity
-    let mut reqs = vec![];
-    let lens: Vec<usize> = if quick { vec![0, 1, 2, 5, 8191, 8192, 8193, 65536] } else { vec![0, 1, 2, 5, 100, 8000, 8100, 8191, 8192, 8193, 16383, 16384, 16385, 65535, 65536] };
-    for &n in &lens {
-        for m in ["POST", "PUT"] {
-            let mut r = Req::new(m, "/body");
-            r.headers = vec![("Host".into(), " ".into(), "x".into())];
-            r.body = Some(body_pattern(n));
-            reqs.push(r);
-            // header block padded so that the body starts exactly at / around the 8192 buffer boundary
-            for pad_to in [8190usize, 8191, 8192, 8193] {
-                let mut r = Req::new(m, "/body");
-                let base = r.bytes().len() + format!("Content-Length: {}\r\n", n).len() + "X-Pad: \r\n".len();
-                if pad_to > base {
-                    r.headers = vec![("X-Pad".into(), " ".into(), "p".repeat(pad_to - base))];
-                    r.body = Some(body_pattern(n));
-                    reqs.push(r);
-                }
-            }
-        }
-    }
-    run_family(&mut st, "bodies", reqs, Depth::Single, 90);
-
-    cx.bound("header_sequence_len", l3);
-    cx.bound("many_header_counts", json!(counts));
-    cx.bound("body_lengths", json!(lens));
-    cx.assume("threaded (std::io::Read) parser; the tokio parser is checked by the tokio twin of this check when built");
+    cx.bound("header_sequence_len", fams.header_sequence_len);
+    cx.bound("many_header_counts", json!(fams.many_header_counts));
+    cx.bound("body_lengths", json!(fams.body_lengths));
     cx.stats.merge(st);
+    crate::tokio_twin::merge(&mut cx, "C02");
     cx.finish()
 }
